@@ -8,7 +8,7 @@
 (*   act    any other API call; carries the transceiver list                  *)
 EXTENDS SdpOps, TraceKit
 
-VARIABLES pos, viol, cnt, prev, used, trMid, appNeg
+VARIABLES pos, viol, cnt, prev, used, trMid, appNeg, orig
 
 Who == {"A", "B"}
 Unified(e) == e.cfg # "planb"
@@ -56,6 +56,10 @@ Preds(e) ==
   IN
   {
    \* ---- C06
+   \* C11 along sequential histories: every description an endpoint generates has the session id of the first one
+   \* and a version above that of the one generated before it (whatever was applied, rolled forward or left unused)
+   P("C11", "SeqSameSessionId", desc /\ d.parses /\ orig[e.who] # <<>>, d.sessId = orig[e.who][1]),
+   P("C11", "SeqVersionIncreasing", desc /\ d.parses /\ orig[e.who] # <<>>, d.sessVer > orig[e.who][2]),
    P("C06", "Parses", desc, d.parses),
    P("C06", "UniqueMids", desc /\ d.parses, UniqueMids(d)),
    P("C06", "BundleExact", desc /\ d.parses, BundleExact(d)),
@@ -113,14 +117,14 @@ Preds(e) ==
 
 Init == /\ pos = 1 /\ viol = {} /\ cnt = EmptyCount
         /\ prev = [w \in Who |-> <<>>] /\ used = [w \in Who |-> {}] /\ trMid = {}
-        /\ appNeg = [w \in Who |-> FALSE]
+        /\ appNeg = [w \in Who |-> FALSE] /\ orig = [w \in Who |-> <<>>]
 
 Step ==
   /\ pos <= Len(Trace)
   /\ LET e == Trace[pos] IN
        IF e.ev = "reset"
        THEN /\ prev' = [w \in Who |-> <<>>] /\ used' = [w \in Who |-> {}] /\ trMid' = {}
-            /\ appNeg' = [w \in Who |-> FALSE]
+            /\ appNeg' = [w \in Who |-> FALSE] /\ orig' = [w \in Who |-> <<>>]
             /\ UNCHANGED <<viol, cnt>>
        ELSE LET ps == Preds(e) IN
             /\ viol' = Merge(viol, Failures(ps, e, pos))
@@ -130,11 +134,12 @@ Step ==
                     /\ used' = [used EXCEPT ![e.who] = @ \cup Range(e.mids)]
                     /\ appNeg' = [appNeg EXCEPT ![e.who] = @ \/ e.hasApp]
                ELSE UNCHANGED <<prev, used, appNeg>>
+            /\ orig' = IF e.ev = "desc" /\ e.ok /\ e.d.parses THEN [orig EXCEPT ![e.who] = <<e.d.sessId, e.d.sessVer>>] ELSE orig
             /\ trMid' = trMid \cup {<<e.who, e.trs[k].id, e.trs[k].mid>> :
                                       k \in {j \in 1..Len(e.trs) : e.trs[j].mid # ""}}
   /\ pos' = pos + 1
 
-Done == pos = Len(Trace) + 1 /\ UNCHANGED <<pos, viol, cnt, prev, used, trMid, appNeg>>
+Done == pos = Len(Trace) + 1 /\ UNCHANGED <<pos, viol, cnt, prev, used, trMid, appNeg, orig>>
 Next == Step \/ Done
 Rep  == Report(pos, viol, cnt)
 =============================================================================
